@@ -191,6 +191,34 @@ pub fn c04(opts: &Opts, out: &mut Out) {
             out.case(format!("events+perturbations of {}: prover events {}", key, pev.len()));
         }
     }
+    // context binding at every position of a batch larger than the internal chunk limit: each proof is bound to the
+    // transcript supplied at *its own* position
+    {
+        let k = 257usize;
+        let mut insts = vec![];
+        let mut stmts = vec![];
+        let mut proofs = vec![];
+        for i in 0..k {
+            let mut inst = fmrun::random_inst(2, 1, 1, 1, 4, false, &mut rng);
+            inst.ctx = (i as u64).to_le_bytes().to_vec();
+            stmts.push(inst.statement());
+            proofs.push(inst.prove(&mut rng).unwrap());
+            insts.push(inst);
+        }
+        let mut ts: Vec<_> = insts.iter().map(|i| i.transcript()).collect();
+        let r = Proof::verify_batch(&mut ts, &stmts, &proofs, VerifyAction::VerifyOnly);
+        out.oracle("C04:large-batch-distinct-contexts-accepted", r.is_ok(), "k=257 distinct contexts", &format!("{:?}", r.err()));
+        for pos in [0usize, 1, 128, 255, 256] {
+            let mut ts: Vec<_> = insts.iter().map(|i| i.transcript()).collect();
+            let mut other = insts[pos].clone();
+            other.ctx[0] ^= 0x80;
+            ts[pos] = other.transcript();
+            let r = Proof::verify_batch(&mut ts, &stmts, &proofs, VerifyAction::VerifyOnly);
+            out.oracle("C04:context-bound-at-every-batch-position", r.is_err(), &format!("k=257 perturbed context at position {}", pos), "a proof was accepted under a context other than the one it was created in");
+            kinds.insert((2, 257, 1, format!("batch-context@{}", pos)));
+            npert += 1;
+        }
+    }
     out.stat("perturbation_runs", npert);
     out.stat("distinct_classes", kinds.len());
 }
